@@ -25,6 +25,53 @@ import (
 	"unicode"
 )
 
+// extraInst: what the instantiation harness observed when it ran the REAL builder on its probe grammars (finite,
+// exhaustive over the 48 probe builds; a failure names the probe variant = a concrete failing input):
+//   inst[<variant>]:builds              BuildParser + imports.Process return code, no error, no panic   (C04, C13)
+//   inst[<variant>]:rebuild-identical   a second build of the same grammar and options in the same process gives the
+//                                       same bytes                                                      (C19)
+func (d *Driver) extraInst(rtDir string) {
+	read := func(name string) map[string]string {
+		m := map[string]string{}
+		b, err := os.ReadFile(filepath.Join(rtDir, name))
+		if err != nil {
+			return m
+		}
+		for _, l := range strings.Split(string(b), "\n") {
+			if i := strings.Index(l, "\t"); i > 0 {
+				m[l[:i]] = l[i+1:]
+			}
+		}
+		return m
+	}
+	vb, err := os.ReadFile(filepath.Join(rtDir, "VARIANTS.txt"))
+	if err != nil {
+		return
+	}
+	fails, rebuilt := read("FAILURES.txt"), read("REBUILD.txt")
+	for _, v := range strings.Fields(string(vb)) {
+		for _, ob := range []struct {
+			name, clause string
+			tags         []string
+			bad          map[string]string
+		}{
+			{"builds", "the real builder produces a parser for the probe grammar under these flags (no error, no panic)", []string{"C04", "C13"}, fails},
+			{"rebuild-identical", "a second build of the same grammar and options in the same process yields the same bytes", []string{"C19"}, rebuilt},
+		} {
+			if ob.name == "rebuild-identical" && fails[v] != "" {
+				continue
+			}
+			q := &Query{Obligation: "inst[" + v + "]:" + ob.name, Func: "(instantiation)", Kind: "exhaustive", Tags: ob.tags, Path: 1, Clause: ob.clause, Where: "probe variant " + v}
+			if msg, bad := ob.bad[v]; bad {
+				q.Result, q.Solver, q.Model = "sat", "exhaustive", "probe grammar of variant "+v+" (o=optimize-parser b=optimize-basic-latin l=left-recursive grammar with -support-left-recursion s=state blocks x1=-support-left-recursion without left recursion n1=-nolint): "+msg
+			} else {
+				q.Result, q.Solver = "unsat", "exhaustive"
+			}
+			d.queries = append(d.queries, q)
+		}
+	}
+}
+
 func (d *Driver) extraC04(loader *Loader, rtDir string) {
 	add := func(name, kind, clause string, ok bool, detail string) {
 		q := &Query{Obligation: name, Func: "(instantiation)", Kind: kind, Tags: []string{"C04"}, Path: 1, Clause: clause, Where: detail}
@@ -50,6 +97,24 @@ func (d *Driver) extraC04(loader *Loader, rtDir string) {
 				same := err2 == nil && codeOnly(plain) == codeOnly(pkg)
 				add("inst["+name+"]:same-code", "typecheck", "-nolint changes comments only", same, "token streams differ")
 			}
+		}
+	}
+	// 1b. -support-left-recursion given for a grammar without left recursion: compiles, and is the l0 code
+	for _, v := range rtVariantsAll {
+		if v[5] != '0' {
+			continue
+		}
+		name := v + "x1"
+		pkg, err := loader.LoadDir(filepath.Join(rtDir, name), "verif/rt4/"+name, "rt["+name+"]", nil)
+		msg := ""
+		if err != nil {
+			msg = err.Error()
+		}
+		add("inst["+name+"]:typecheck", "typecheck", "the parser generated with -support-left-recursion from a grammar without left recursion type-checks", err == nil, msg)
+		if err == nil {
+			plain, err2 := loader.LoadDir(filepath.Join(rtDir, v), "verif/rt4q/"+v, "rt["+v+"]", nil)
+			same := err2 == nil && codeOnly(plain) == codeOnly(pkg)
+			add("inst["+name+"]:same-code", "typecheck", "-support-left-recursion changes nothing when the grammar has no left recursion", same, "token streams differ")
 		}
 	}
 	// 2. accepted Unicode classes resolve
